@@ -50,6 +50,19 @@ Definition to_be16 (n : nat) : bytes :=
 Definition is_stop (e : rd_event) : bool :=
   match e with RdData _ _ => false | RdIntr false => false | _ => true end.
 
+(* close_after_draining (the repaired close after a response-less request): shutdown(Write),
+   then read into the whole buffer and discard until the peer closes, the deadline passes or
+   an error occurs.  Nothing is written any more; however it ends, the connection is closed
+   because of the response-less request.  (Before the fix the socket was dropped at once; with
+   pipelined octets unread the kernel then reset the connection and destroyed responses that
+   had been written but not yet delivered — see docs/C30.md.) *)
+Fixpoint drain_close (evs : list rd_event) : close_reason :=
+  match evs with
+  | RdData (_ :: _) false :: evs' => drain_close evs'
+  | RdIntr false :: evs' => drain_close evs'
+  | _ => ClNoResponse
+  end.
+
 Section Tcp.
   (* Server::handle_message(msg, ReceivedInfo{client_ip, Tcp}, &mut response_buf[2..]) as a
      function of the message alone: Some resp = Response::Single(|resp|) with resp written
@@ -90,7 +103,7 @@ Section Tcp.
     else if rcap <? 2 then Panic                      (* &mut response_buf[2..] *)
     else if (N.of_nat (rcap - 2) <? 65535)%N then Panic  (* "the response buffer is not large enough" *)
     else match handler (slice buf 2 (L + 2)) with
-    | None => Ok ([], ClNoResponse)
+    | None => Ok ([], drain_close evs)
     | Some resp =>
         if rcap <? 2 + length resp then Panic         (* &response_buf[0..2 + response_len] *)
         else
